@@ -22,6 +22,8 @@ import (
 	"time"
 
 	remoteexecution "github.com/bazelbuild/remote-apis/build/bazel/remote/execution/v2"
+	"github.com/buildbarn/bb-storage/pkg/blobstore"
+	"github.com/buildbarn/bb-storage/pkg/blobstore/completenesschecking"
 	"google.golang.org/grpc/codes"
 	"google.golang.org/grpc/status"
 
@@ -71,6 +73,7 @@ func main() {
 			"multi_batch_gets":                        9000,
 			"flaky_runs":                              900,
 			"flaky_returned":                          400,
+			"gets_on_reused_decorator":                600,
 		},
 		Assumptions: []string{
 			"'reported present during that call' is decided from the model CAS's per-call log of FindMissing requests and replies",
@@ -319,10 +322,21 @@ func body(w *run.Worker) {
 			w.Sample(map[string]any{"group": "each-missing", "world": wd.shape, "referenced_objects": nR})
 		}
 		batches := []int{1, 2, 3, 7, nR - 1, nR, nR + 1, 1000}
+		// Every third case: one decorator instance for the baseline and all
+		// probes (it just saw every object reported present).
+		var shared blobstore.BlobAccess
+		if c.Index%3 == 0 {
+			shared = completenesschecking.NewCompletenessCheckingBlobAccess(wd.ac, wd.cas, cfg.batch, cfg.maxMsg, cfg.maxTree)
+			cfg.ba = shared
+			cfg.label = "each-missing base (shared decorator)"
+			h.execute(wd, cfg)
+		}
 		for i, k := range exp.order {
 			data := wd.cas.objects[k]
 			delete(wd.cas.objects, k)
-			cfg.batch = batches[(i+int(c.Index))%len(batches)]
+			if shared == nil {
+				cfg.batch = batches[(i+int(c.Index))%len(batches)]
+			}
 			if cfg.batch < 1 {
 				cfg.batch = 1
 			}
@@ -473,6 +487,9 @@ func body(w *run.Worker) {
 		cfg.batch = r.Pick(1, 2, 3)
 		leaves := exp.leaves()
 		c.Desc("%s | batch=%d: one of %d non-Tree references removed/inserted at every CAS call index", wd.shape, cfg.batch, len(leaves))
+		if c.Index%2 == 0 {
+			cfg.ba = completenesschecking.NewCompletenessCheckingBlobAccess(wd.ac, wd.cas, cfg.batch, cfg.maxMsg, cfg.maxTree)
+		}
 		cfg.label = "changing-cas base"
 		base := h.execute(wd, cfg)
 		if len(leaves) == 0 {
